@@ -1,12 +1,17 @@
 #![no_main]
 //! libFuzzer target for engine A. VERIF_PROP selects the property (its oracles and its generator
-//! configuration); the semantic oracle is inside the target, a violation panics.
-use std::sync::OnceLock;
+//! configuration); the semantic oracle is inside the target.
+//!
+//! libfuzzer-sys aborts on *every* panic, also on the in-contract ones the engine provokes and
+//! catches (out-of-range calls of C17). The target therefore installs the harness's own quiet
+//! hook and aborts explicitly when, and only when, the engine reports a violation.
+use std::sync::{Once, OnceLock};
 
-use evv::{checks, common::{Prop, Stop}, decode, engine_vec, vec_gen::GenCfg};
+use evv::{campaign::guarded, checks, common::{install_quiet_panic_hook, Prop, Stop}, decode, engine_vec, vec_gen::GenCfg, vec_types::VecCase};
 use libfuzzer_sys::fuzz_target;
 
 static CFG: OnceLock<(Prop, GenCfg)> = OnceLock::new();
+static HOOK: Once = Once::new();
 
 fn cfg() -> &'static (Prop, GenCfg) {
     CFG.get_or_init(|| {
@@ -18,11 +23,19 @@ fn cfg() -> &'static (Prop, GenCfg) {
 }
 
 fuzz_target!(|data: &[u8]| {
+    HOOK.call_once(install_quiet_panic_hook);
     let (prop, g) = cfg();
     let case = decode::vec_case(data, g);
-    match engine_vec::run(&case, *prop) {
-        Err(Stop::Violation(m)) => panic!("VIOLATION {}: {m}", prop.name()),
-        Err(Stop::Internal(m)) => panic!("INTERNAL: {m}"),
+    let prop = *prop;
+    match guarded(&case, &|c: &VecCase| engine_vec::run(c, prop)) {
+        Err(Stop::Violation(m)) => {
+            eprintln!("VIOLATION {}: {m}", prop.name());
+            std::process::abort();
+        }
+        Err(Stop::Internal(m)) => {
+            eprintln!("INTERNAL: {m}");
+            std::process::abort();
+        }
         _ => {}
     }
 });
